@@ -1897,3 +1897,349 @@ func runConstPool(c *Ctx, r *Reporter) {
 		r.Undecided("addConstant has no return")
 	}
 }
+
+// R-IDENTKEY: the test that decides whether a map key is printed bare is safe for keywords.
+//
+// `repr` prints a key without quotes when it is an identifier; a keyword is an identifier in that position (the
+// parser reads map keys through Token.AsIdent, so `{for:1}` is a map with the key for). IsIdent may decide on the
+// characters alone; if it decides by lexing the string, the token's type says FOR, not IDENT, for a keyword — so a
+// comparison of a lexed token's type with IDENT is made on the token as normalised by AsIdent, like the parser does.
+var ruleIdentKey = &Rule{
+	ID:    "R-IDENTKEY",
+	Doc:   "lexer.IsIdent decides on character classes, or — if it lexes the string — compares the type of the token as normalised by AsIdent with IDENT (keywords are identifiers where a map key stands); keyRepr prints a key bare exactly on the true edge of IsIdent",
+	Floor: 2,
+	Run:   runIdentKey,
+}
+
+func runIdentKey(c *Ctx, r *Reporter) {
+	p, err := c.Default()
+	if err != nil {
+		r.Undecided("%v", err)
+		return
+	}
+	lexPkg, evalPkg := p.Pkg("pkg/lexer"), p.Pkg(evaluatorRel)
+	fd := FindFunc(lexPkg, "IsIdent")
+	if fd == nil {
+		r.Undecided("lexer.IsIdent not found")
+		return
+	}
+	sf := p.SSAFunc(fd.Obj)
+	identV := "?"
+	if k, ok := lexPkg.Types.Scope().Lookup("IDENT").(*types.Const); ok {
+		identV = k.Val().ExactString()
+	}
+	fromNext := func(v ssa.Value) (lexed bool, normalised bool) {
+		for i := 0; i < 8 && v != nil; i++ {
+			switch x := v.(type) {
+			case *ssa.UnOp:
+				v = x.X
+			case *ssa.FieldAddr:
+				v = x.X
+			case *ssa.Field:
+				v = x.X
+			case *ssa.Call:
+				sc := x.Call.StaticCallee()
+				if sc == nil {
+					return lexed, normalised
+				}
+				switch sc.Name() {
+				case "AsIdent":
+					normalised = true
+					v = x.Call.Args[0]
+				case "Next", "Tokenize":
+					return true, normalised
+				case "TokenType":
+					v = x.Call.Args[0]
+				default:
+					return lexed, normalised
+				}
+			default:
+				return lexed, normalised
+			}
+		}
+		return lexed, normalised
+	}
+	bad := ""
+	lexes := false
+	for _, b := range sf.Blocks {
+		for _, ins := range b.Instrs {
+			bo, ok := ins.(*ssa.BinOp)
+			if !ok || (bo.Op != token.EQL && bo.Op != token.NEQ) {
+				continue
+			}
+			for _, pair := range [][2]ssa.Value{{bo.X, bo.Y}, {bo.Y, bo.X}} {
+				k, ok := pair[1].(*ssa.Const)
+				if !ok || k.Value == nil || k.Value.ExactString() != identV || namedOf(k.Type()) == nil || namedOf(k.Type()).Obj().Name() != "TokenType" {
+					continue
+				}
+				lexed, norm := fromNext(pair[0])
+				if lexed {
+					lexes = true
+					if !norm {
+						bad = p.Rel(bo.Pos())
+					}
+				}
+			}
+		}
+	}
+	how := "decides on the characters of the string"
+	if lexes {
+		how = "lexes the string and compares the type of the token normalised by AsIdent"
+	}
+	r.Check(bad == "", fd.QName()+"#keyword-safe", p.Rel(fd.Decl.Pos()), how,
+		"IsIdent lexes the string and compares the raw token type with IDENT (at "+bad+"): a keyword lexes as its own token type, so `repr {for:1 if:2}` quotes the keys ({\"for\":1 \"if\":2}) although they are identifiers where a map key stands (the parser reads them through AsIdent)")
+	// keyRepr: bare exactly on the true edge
+	if kd := FindFunc(evalPkg, "keyRepr"); kd != nil {
+		ks := p.SSAFunc(kd.Obj)
+		good := false
+		for _, b := range ks.Blocks {
+			if len(b.Instrs) == 0 {
+				continue
+			}
+			ifi, ok := b.Instrs[len(b.Instrs)-1].(*ssa.If)
+			if !ok {
+				continue
+			}
+			call, ok := ifi.Cond.(*ssa.Call)
+			if !ok || call.Call.StaticCallee() != sf {
+				continue
+			}
+			// true edge returns the parameter, false edge a call of strconv.Quote
+			t, f := b.Succs[0], b.Succs[1]
+			retParam := func(x *ssa.BasicBlock) bool {
+				if len(x.Instrs) == 0 {
+					return false
+				}
+				ret, ok := x.Instrs[len(x.Instrs)-1].(*ssa.Return)
+				return ok && len(ret.Results) == 1 && len(ks.Params) == 1 && ret.Results[0] == ssa.Value(ks.Params[0])
+			}
+			retQuote := func(x *ssa.BasicBlock) bool {
+				if len(x.Instrs) == 0 {
+					return false
+				}
+				ret, ok := x.Instrs[len(x.Instrs)-1].(*ssa.Return)
+				if !ok || len(ret.Results) != 1 {
+					return false
+				}
+				c2, ok := ret.Results[0].(*ssa.Call)
+				return ok && c2.Call.StaticCallee() != nil && c2.Call.StaticCallee().Name() == "Quote"
+			}
+			good = retParam(t) && retQuote(f)
+		}
+		r.Check(good, kd.QName()+"#bare-iff-identifier", p.Rel(kd.Decl.Pos()), "a key is printed bare when it is an identifier and quoted otherwise", "keyRepr does not return the key itself exactly on the true edge of lexer.IsIdent and strconv.Quote of it on the false edge")
+	} else {
+		r.Undecided("keyRepr not found")
+	}
+}
+
+// R-BLANKBEFORE: the blank line that separates a function (and its leading comments) from what precedes it is put
+// behind the statement that directly precedes it.
+//
+// nlAfter works on accumulations: runs of statements of one kind, each with the index of its FIRST statement; a
+// function is always an accumulation of its own (newAccumulations starts one for every func), all other kinds span
+// runs. "A blank line before accumulation k+1" therefore goes behind statement accums[k+1].idx-1; the current
+// accumulation's own idx is the right place only when that accumulation is a single statement, i.e. a func. An index
+// taken from the start of a run puts the blank line in the middle of the run, and since the line before the function
+// is then still missing, every formatting pass inserts another one: the output is not a fixed point.
+var ruleBlankBefore = &Rule{
+	ID: "R-BLANKBEFORE",
+	Doc: "every index nlAfter marks is accums[i+1].idx-1 (the statement right before the next accumulation) or, under the condition that the current accumulation is a func (a single statement), its own idx; " +
+		"newAccumulations starts a new accumulation for every func",
+	Floor: 3,
+	Run:   runBlankBefore,
+}
+
+func runBlankBefore(c *Ctx, r *Reporter) {
+	p, pkg := parserPkg(c, r)
+	if pkg == nil {
+		return
+	}
+	info := pkg.TypesInfo
+	fd := FindFunc(pkg, "nlAfter")
+	if fd == nil {
+		r.Undecided("nlAfter not found")
+		return
+	}
+	// single-assignment locals
+	defs := map[types.Object]ast.Expr{}
+	count := map[types.Object]int{}
+	ast.Inspect(fd.Decl.Body, func(n ast.Node) bool {
+		if as, ok := n.(*ast.AssignStmt); ok && len(as.Lhs) == len(as.Rhs) {
+			for i, l := range as.Lhs {
+				if id, ok := l.(*ast.Ident); ok {
+					obj := info.ObjectOf(id)
+					defs[obj] = as.Rhs[i]
+					count[obj]++
+				}
+			}
+		}
+		return true
+	})
+	var resolve func(e ast.Expr, depth int) ast.Expr
+	resolve = func(e ast.Expr, depth int) ast.Expr {
+		e = ast.Unparen(e)
+		if id, ok := e.(*ast.Ident); ok && depth < 4 {
+			if obj := info.ObjectOf(id); count[obj] == 1 {
+				return resolve(defs[obj], depth+1)
+			}
+		}
+		return e
+	}
+	// the range statement over the accumulations
+	var rangeVal, rangeKey types.Object
+	ast.Inspect(fd.Decl.Body, func(n ast.Node) bool {
+		if rs, ok := n.(*ast.RangeStmt); ok && rangeVal == nil {
+			if v, ok := rs.Value.(*ast.Ident); ok {
+				rangeVal = info.ObjectOf(v)
+			}
+			if k, ok := rs.Key.(*ast.Ident); ok {
+				rangeKey = info.ObjectOf(k)
+			}
+		}
+		return true
+	})
+	isNextAccum := func(e ast.Expr) bool { // accums[i+1]
+		ix, ok := resolve(e, 0).(*ast.IndexExpr)
+		if !ok {
+			return false
+		}
+		be, ok := ast.Unparen(ix.Index).(*ast.BinaryExpr)
+		if !ok || be.Op != token.ADD {
+			return false
+		}
+		id, ok := ast.Unparen(be.X).(*ast.Ident)
+		one, isOne := constInt(info, be.Y)
+		return ok && info.ObjectOf(id) == rangeKey && isOne && one == 1
+	}
+	n := 0
+	var visit func(list []ast.Stmt, conds []ast.Expr)
+	checkStore := func(as *ast.AssignStmt, conds []ast.Expr) {
+		for _, l := range as.Lhs {
+			ix, ok := ast.Unparen(l).(*ast.IndexExpr)
+			if !ok {
+				continue
+			}
+			if mt, ok := info.TypeOf(ix.X).Underlying().(*types.Map); !ok || mt == nil {
+				continue
+			}
+			n++
+			key := resolve(ix.Index, 0)
+			good, what := false, types.ExprString(key)
+			if be, ok := key.(*ast.BinaryExpr); ok && be.Op == token.SUB {
+				if one, isOne := constInt(info, be.Y); isOne && one == 1 {
+					if sel, ok := ast.Unparen(be.X).(*ast.SelectorExpr); ok && sel.Sel.Name == "idx" && isNextAccum(sel.X) {
+						good = true
+					}
+				}
+			}
+			if sel, ok := key.(*ast.SelectorExpr); ok && sel.Sel.Name == "idx" {
+				if id, ok := ast.Unparen(sel.X).(*ast.Ident); ok && info.ObjectOf(id) == rangeVal {
+					// needs the conjunct accum.stmtType == "func" among the conditions of the enclosing case
+					for _, cnd := range conds {
+						var conj func(e ast.Expr)
+						conj = func(e ast.Expr) {
+							e = ast.Unparen(e)
+							if be, ok := e.(*ast.BinaryExpr); ok {
+								if be.Op == token.LAND {
+									conj(be.X)
+									conj(be.Y)
+									return
+								}
+								if be.Op == token.EQL {
+									if s2, ok := ast.Unparen(be.X).(*ast.SelectorExpr); ok && s2.Sel.Name == "stmtType" {
+										if id2, ok := ast.Unparen(s2.X).(*ast.Ident); ok && info.ObjectOf(id2) == rangeVal {
+											if sv, ok := constString(info, be.Y); ok && sv == "func" {
+												good = true
+											}
+										}
+									}
+								}
+							}
+						}
+						conj(cnd)
+					}
+					what = "the current accumulation's own idx (its first statement) on a path where it need not be a func"
+				}
+			}
+			r.Check(good, fmt.Sprintf("pkg/parser.nlAfter#marked-index[%d]", n), p.Rel(as.Pos()), "the blank line goes behind the statement that directly precedes what follows",
+				"nlAfter marks "+what+": for a run of several statements followed by the comments of a func, the blank line is put behind the first statement of the run and the line before the comments stays missing, so every `evy fmt` pass inserts another blank line (not idempotent)")
+		}
+	}
+	visit = func(list []ast.Stmt, conds []ast.Expr) {
+		for _, st := range list {
+			switch x := st.(type) {
+			case *ast.AssignStmt:
+				checkStore(x, conds)
+			case *ast.IfStmt:
+				visit(x.Body.List, append(append([]ast.Expr{}, conds...), x.Cond))
+				if x.Else != nil {
+					if eb, ok := x.Else.(*ast.BlockStmt); ok {
+						visit(eb.List, conds)
+					} else {
+						visit([]ast.Stmt{x.Else}, conds)
+					}
+				}
+			case *ast.SwitchStmt:
+				for _, cs := range x.Body.List {
+					cc := cs.(*ast.CaseClause)
+					cnd := conds
+					if x.Tag == nil && len(cc.List) == 1 {
+						cnd = append(append([]ast.Expr{}, conds...), cc.List[0])
+					}
+					visit(cc.Body, cnd)
+				}
+			case *ast.RangeStmt:
+				visit(x.Body.List, conds)
+			case *ast.ForStmt:
+				visit(x.Body.List, conds)
+			case *ast.BlockStmt:
+				visit(x.List, conds)
+			}
+		}
+	}
+	visit(fd.Decl.Body.List, nil)
+	if n == 0 {
+		r.Undecided("nlAfter marks no index")
+	}
+	// newAccumulations: a func always starts an accumulation of its own
+	if nd := FindFunc(pkg, "newAccumulations"); nd != nil {
+		good := false
+		ast.Inspect(nd.Decl.Body, func(nn ast.Node) bool {
+			ifs, ok := nn.(*ast.IfStmt)
+			if !ok {
+				return true
+			}
+			appends := false
+			ast.Inspect(ifs.Body, func(n2 ast.Node) bool {
+				if call, ok := n2.(*ast.CallExpr); ok && isBuiltinCall(info, call, "append") {
+					appends = true
+				}
+				return true
+			})
+			if !appends {
+				return true
+			}
+			var disj func(e ast.Expr)
+			disj = func(e ast.Expr) {
+				e = ast.Unparen(e)
+				if be, ok := e.(*ast.BinaryExpr); ok {
+					if be.Op == token.LOR {
+						disj(be.X)
+						disj(be.Y)
+						return
+					}
+					if be.Op == token.EQL {
+						if sv, ok := constString(info, be.Y); ok && sv == "func" {
+							good = true
+						}
+					}
+				}
+			}
+			disj(ifs.Cond)
+			return true
+		})
+		r.Check(good, nd.QName()+"#func-is-its-own-accumulation", p.Rel(nd.Decl.Pos()), "every func starts an accumulation of its own", "newAccumulations does not start a new accumulation for every func: consecutive functions would be one run and get no blank line between them")
+	} else {
+		r.Undecided("newAccumulations not found")
+	}
+}
